@@ -3,6 +3,19 @@ package queue
 // C07 harnesses: ring-buffer queue vs a reference sequence.
 
 func vObserve(q *Queue[int], ref []int, what string) {
+	// a callback that uses the read-only observers on the queue it is iterating
+	if len(ref) > 1 {
+		i := 0
+		q.Each(func(v int) bool {
+			snap := q.Slice()
+			f, _ := q.Peek(0)
+			vAssert(len(snap) == len(ref) && q.Len() == len(ref) && f == ref[0], what+": observers called from inside Each see the whole queue")
+			vAssert(i < len(ref) && v == ref[i], what+": Each is not disturbed by observers called from its callback")
+			i++
+			return true
+		})
+		vAssert(i == len(ref), what+": Each yields every element when its callback observes the queue")
+	}
 	vAssert(q.Len() == len(ref), what+": Len")
 	vAssert(q.IsEmpty() == (len(ref) == 0), what+": IsEmpty")
 	if len(ref) > 0 {
